@@ -442,10 +442,16 @@ class Connection(ExportImport):
                 del obj._p_oid
                 if obj._p_changed:
                     obj._p_changed = False
-            elif oid in self._creating:
-                # A new object that has been stored already: it is
-                # disowned below (_invalidate_creating) and keeps its
-                # state, which exists nowhere else.
+            elif (oid in self._creating
+                  or (self._savepoint_storage is not None
+                      and oid in self._savepoint_storage.creating)):
+                # A new object that has been stored already (by this
+                # commit, or by a savepoint): it is disowned by
+                # _invalidate_creating (in abort, _abort_savepoint or
+                # _rollback_savepoint) and keeps its state, which exists
+                # nowhere else.  (One created before the savepoint that is
+                # rolled back to is reloaded: _rollback_savepoint
+                # invalidates everything in the savepoint index.)
                 pass
             else:
                 # Note: If we invalidate a non-ghostifiable object
